@@ -68,6 +68,9 @@ def exportObs (F : NumFmt K) (ext : Bool) (cf : String) (o : Obs K) : Elem × At
 
 inductive Err where
   | undefinedAttribute | missingStandpoint | missingTarget | missingSecondTarget | missingValue | badNumber
+  -- whole document (Model/ExportNet.lean)
+  | missingPointId | missingCoordinate | undefinedPointType | badParameter | badNetwork | badCovMat | missingCovMat
+  | badVector | illegalElement | emptyCoordsPoint
 deriving DecidableEq, Repr
 
 def rdOr (F : NumFmt K) (s : Option String) (dflt : K) : Except Err K :=
@@ -107,10 +110,20 @@ structure Obs.WF (F : NumFmt K) (o : Obs K) : Prop where
   fs_angle : o.kind = .angle → o.fs ≠ ""
   fs_other : o.kind ≠ .angle → o.fs = "" ∧ o.fsDh = F.zero
 
-/-- the hypothesis about numbers -/
-structure NumFmt.Lawful (F : NumFmt K) : Prop where
-  rd_fmt : ∀ x, F.rd (F.fmt x) = some x
+/-- the hypothesis about numbers, relative to the set `R` of *representable* numbers (the ones the printer gives back
+    exactly: everything that was read from a printed file is one).  A printer with a fixed number of digits satisfies it
+    with `R x := rd (fmt x) = some x`; `R := fun _ => True` is the exact codec. -/
+structure NumFmt.LawfulOn (F : NumFmt K) (R : K → Prop) : Prop where
+  rd_fmt : ∀ x, R x → F.rd (F.fmt x) = some x
   isZero_iff : ∀ x, F.isZero x = true ↔ x = F.zero
+
+/-- the numbers of an observation are representable -/
+structure Obs.Rep (R : K → Prop) (o : Obs K) : Prop where
+  val : R o.val
+  stdev : R o.stdev
+  fromDh : R o.fromDh
+  toDh : R o.toDh
+  fsDh : R o.fsDh
 
 /-! ### `<dh>` -/
 
